@@ -89,7 +89,6 @@ SPECS = {
     "C05": S(profiles=[("cycles", 1.0)], projection="PVerdict",
              chk="fun c => chk_C05 (cs_cfg c) (cs_hist c) (cs_impl c)",
              requires=CORE + ["GraphProofs"],
-             theorems=[("GraphProofs", t) for t in ["dfs_fuel_enough", "dfs_sound", "dfs_complete", "dfs_decides", "add_source_acyclic"]],
              rule="non-trivial: some Provide or Invoke reported a cycle, or >=3 constructors were accepted across >=2 scopes; graph level: every digraph counts"),
     "C06": S(profiles=[("rejections", 1.0)], projection="PExec", twin="drop-rejected",
              chk2="fun c t p => chk_C06 (cs_hist c) (cs_impl c) t",
@@ -114,8 +113,6 @@ SPECS = {
              rule="non-trivial: a decorator executed and some consumer received its output"),
     "C13": S(profiles=[("faults", 0.5), ("gaps", 0.25), ("cycles", 0.25)], projection="PChain", flags=True,
              requires=CORE + ["ErrCauseCheck"],
-             theorems=[("ErrTableCheck", t) for t in ["table_ok_now", "viz_ok_now", "C13_rootcause", "C13_as_dig", "C13_is_cycle", "C13_root_is_last", "C13_can_viz"]]
-             + [("ErrCauseCheck", "no_foreign_cause_now")],
              rule="non-trivial: some operation returned an error (each distinct chain shape counts)"),
     "C14": S(profiles=[("rejections", 0.6), ("core-mix", 0.4)], projection="PVerdict",
              requires=CORE + ["GoTypes", "Parse", "RunRaw"],
@@ -138,6 +135,18 @@ SPECS = {
              chk="fun c => chk_C20 (cs_cfg c) (cs_dur c) (cs_hist c) (cs_impl c)",
              rule="non-trivial: a function with a callback was executed"),
 }
+
+
+def attach_prop_files():
+    """the proof obligations of a property are the theorems of coq/theories/Prop_<id>.v"""
+    import re
+    for pid, spec in SPECS.items():
+        f = os.path.join(COQ, "theories", f"Prop_{pid}.v")
+        if os.path.exists(f):
+            names = re.findall(r'^Theorem\s+(\w+)', open(f).read(), re.M)
+            spec["theorems"] = [(f"Prop_{pid}", n) for n in names]
+            if f"Prop_{pid}" not in spec["requires"]:
+                spec["requires"] = spec["requires"] + [f"Prop_{pid}"]
 
 
 def regen_errtable():
@@ -385,3 +394,6 @@ def coq_source(spec, cases, traces, twins):
         defs.append(f"Definition V := Eval vm_compute in viol_all ({spec['chk']}) all_cases.")
     defs += ["Print M.", "Print V."]
     return emit.cases_file(list(zip(cases, traces)), extra=extra, defs=defs)
+
+
+attach_prop_files()
